@@ -222,7 +222,7 @@ func (f *fp) tree(v reflect.Value, depth int) *Tree {
 		return &Tree{K: "invalid", Nil: true}
 	}
 	t := &Tree{T: v.Type().String()}
-	if depth > 12 {
+	if depth > 64 {
 		t.K = "deep"
 		return t
 	}
